@@ -424,6 +424,26 @@ pub fn c06(tier: &str, seed: u64) {
       }
       case(true);
     }
+    // a share that REPEATS an x already in the collection but has another number of y values is
+    // still a share of unequal length: refused, wherever it stands after the first share
+    if k >= 1 && distinct.len() >= t as usize && t >= 1 {
+      let mut sel = distinct.clone();
+      let mut odd = sel[g.below(sel.len() as u64) as usize].clone();
+      match g.below(3) {
+        0 => { odd.y.pop(); }
+        1 => odd.y.clear(),
+        _ => { let e = odd.y[0]; odd.y.push(e); }
+      }
+      let pos = g.range(1, sel.len() as u64) as usize;
+      sel.insert(pos, odd);
+      match std::panic::catch_unwind(std::panic::AssertUnwindSafe(|| sharks.recover(&sel).map_err(|e| e.to_string()))) {
+        Err(_) => fail("recover_panic", &[("t", t.to_string()), ("what", "repeated x with another y-length".into())]),
+        Ok(Ok(v)) => fail("unequal_length_share_accepted", &[("t", t.to_string()), ("k", k.to_string()), ("position_of_odd_share", pos.to_string()), ("shares", sel.iter().map(|s| hex(&share_bytes(s))).collect::<Vec<_>>().join(",")), ("returned", hex(&v))]),
+        Ok(Err(_)) => {}
+      }
+      case(true);
+      stat("oracle.C06.repeated_x_other_length");
+    }
     // shares at CHOSEN points (related values: equal modulo 2^64 / 2^128, adjacent, negatives),
     // built with the independent evaluation: exactly t distinct of them must recover
     if k >= 1 && t >= 2 && t <= 12 {
